@@ -199,18 +199,24 @@ CanonInt(b) == Len(b) = 0 \/ b[1] # 0
 \* forms: "wrap"  single byte < 0x80 written as 0x81 xx
 \*        "long"  payload < 56 bytes written in long form with one length byte (b8 nn / f8 nn)
 \*        "lz"    long form whose length has one extra leading zero byte
+\* and one form that is the CANONICAL encoding of another string - the same number written with a
+\* leading zero digit - which every integer decoder must refuse and every byte-string decoder accept:
+\*        "izero" the string 00 || b
 Payload(x) == IF x.k = "s" THEN x.b ELSE EncSeq(x.e)
 Base(x)    == IF x.k = "s" THEN 128 ELSE 192
 FormApplies(x, form) ==
   CASE form = "wrap" -> x.k = "s" /\ Len(x.b) = 1 /\ x.b[1] < 128
     [] form = "long" -> Len(Payload(x)) < 56
     [] form = "lz"   -> TRUE
+    [] form = "izero" -> x.k = "s" /\ Len(x.b) >= 1
     [] OTHER         -> FALSE
 HdrNC(base, n, form) ==
   IF form = "long" THEN <<base + 56, n>>
   ELSE LET l == IF n = 0 THEN <<0>> ELSE BE(n) IN <<base + 56 + Len(l), 0>> \o l     \* "lz"
 EncNode(x, form) == LET p == Payload(x) IN
-                    IF form = "wrap" THEN <<129>> \o p ELSE HdrNC(Base(x), Len(p), form) \o p
+                    IF form = "wrap" THEN <<129>> \o p
+                    ELSE IF form = "izero" THEN Enc(S(<<0>> \o p))
+                    ELSE HdrNC(Base(x), Len(p), form) \o p
 
 \* the encoding of x in which the node at `path` (sequence of child indices) has the given
 \* non-canonical form and everything else, in particular every enclosing header, is canonical
@@ -268,8 +274,18 @@ TruncPoints(x, every) ==
 (**************************** output compaction *******************************)
 \* used only when printing: a byte sequence in which every run of four or more equal bytes is
 \* replaced by the pair <<byte, count>>, e.g. <<248, 56, <<0, 56>>>>
-RECURSIVE RunLen(_, _), Rle(_, _)
-RunLen(s, i) == IF i < Len(s) /\ s[i + 1] = s[i] THEN 1 + RunLen(s, i + 1) ELSE 1
+\* length of the run that starts at i: doubling, then bisection (depth log n; runs may be 2^16 long)
+AllEqC(s, c, a, b) == \A k \in a..b : s[k] = c
+RECURSIVE RunGrow(_, _, _), RunFix(_, _, _, _), Rle(_, _)
+\* s[i .. i+m-1] is known to be a run; try to double it
+RunGrow(s, i, m) == IF i + 2 * m - 1 <= Len(s) /\ AllEqC(s, s[i], i + m, i + 2 * m - 1) THEN RunGrow(s, i, 2 * m) ELSE m
+\* the run has at least lo and at most hi elements
+RunFix(s, i, lo, hi) == IF lo = hi THEN lo
+                        ELSE LET mid == (lo + hi + 1) \div 2 IN
+                             IF AllEqC(s, s[i], i + lo, i + mid - 1) THEN RunFix(s, i, mid, hi) ELSE RunFix(s, i, lo, mid - 1)
+RunLen(s, i) == LET m  == RunGrow(s, i, 1)
+                    hi == IF i + 2 * m - 1 <= Len(s) THEN 2 * m - 1 ELSE Len(s) - i + 1
+                IN RunFix(s, i, m, hi)
 Rle(s, i) == IF i > Len(s) THEN <<>>
              ELSE LET n == RunLen(s, i) IN
                   IF n < 4 THEN <<s[i]>> \o Rle(s, i + 1) ELSE <<<<s[i], n>>>> \o Rle(s, i + n)
